@@ -61,11 +61,20 @@ def run_hier(c):
     h, cls = c["h"], c["cls"]
     uid = next(_uid)
     built = []
+    # a state may be called like the duration tunable of a timed state ('a' timed, another state 'a_duration'):
+    # in every fifth such hierarchy the second name is spelt that way
+    py = {}
+    # (only within one class body: across classes the implicit tunable of a derived timed state shadows an inherited
+    #  state of that name - a naming clash the library does not diagnose and C12 does not speak about)
+    if uid % 3 == 1 and h == "single" and any(m["n"] == "a" and m["f"] in ("T", "TF") for body in cls for m in body):
+        py = {"_b": "a_duration"}
+    unpy = {v: k for k, v in py.items()}
     try:
         for i, body in enumerate(cls, start=1):
             ns = {}
             for m in body:
-                ns[m["n"]] = decorate(m["f"], mkfn(m["n"], "%s@%d" % (m["n"], i)))
+                pn = py.get(m["n"], m["n"])
+                ns[pn] = decorate(m["f"], mkfn(pn, "%s@%d" % (m["n"], i)))
             if h in ("single", "linear2", "linear3"):
                 bases = (built[-1],) if built else (StateMachine,)
             elif h == "diamond":
@@ -100,7 +109,7 @@ def run_hier(c):
             return {"error": errname(e2) if errname(e2) == first else "%s then %s" % (first, errname(e2))}
     try:
         setup_tunables(obj, "smdef_%d_%d" % (os.getpid(), uid))
-        names = list(obj.state_names)
+        names = [unpy.get(x, x) for x in obj.state_names]
         descr = []
         for d in obj.state_descriptions:
             n, _, k = d.partition("@")
@@ -110,7 +119,7 @@ def run_hier(c):
             obj2 = final()
             setup_tunables(obj2, "smdef_%d_%d_2nd" % (os.getpid(), uid))
             # (... and the first instance goes on listing them: found D13)
-            if list(obj2.state_names) != names or list(obj.state_names) != names \
+            if [unpy.get(x, x) for x in obj2.state_names] != names or [unpy.get(x, x) for x in obj.state_names] != names \
                     or list(obj2.state_descriptions) != list(obj.state_descriptions):
                 return {"error": "second_instance_lists_differ", "msg": str(list(obj2.state_names))}
         return {"error": None, "names": names, "descr": descr}
